@@ -75,6 +75,9 @@ def catalogue():
     C["fused-diamond"] = lambda a, b: xp.multiply(xp.add(a, b), xp.add(a, b)) if False else _diamond(xp, a, b)
     C["widen-sum-skinny"] = lambda a, b: xp.sum(_skinny(a, xp.int8), axis=0, dtype=xp.int64)
     C["widen-mean-skinny"] = lambda a, b: xp.mean(_skinny(a, xp.float32), axis=0)
+    # two-output operations whose outputs have different chunk sizes (same block grid), in both orders
+    C["multiout-big-small"] = lambda a, b: _two_outputs(a, big_first=True)[0]
+    C["multiout-small-big"] = lambda a, b: _two_outputs(a, big_first=False)[1]
     # open findings (probes): reported as KNOWN-FINDING, never as violations
     C["unstack"] = lambda a, b: xp.unstack(_rows8(a, xp))[0]
     C["index-step"] = lambda a, b: a[::3, 1:]
@@ -84,6 +87,27 @@ def catalogue():
 
 def _sq(x):
     return x * x
+
+
+def _two_outputs(x, big_first):
+    """general_blockwise with two outputs on the same block grid: the block doubled (chunks of x) and one maximum per block
+    (1x1 chunks).  The projection must cover the larger output whichever position it is in."""
+    from cubed.core.ops import general_blockwise
+    from cubed.primitive.blockwise import ChunkKey, FunctionArgs
+
+    def f(block):
+        block = np.asarray(block)
+        big, small = block * 2.0, np.max(block, keepdims=True)
+        return (big, small) if big_first else (small, big)
+
+    def back_key_function(out_key):
+        return FunctionArgs(ChunkKey(x.name, out_key.coords), output_name=out_key.name)
+    ones = tuple((1,) * n for n in x.numblocks)
+    shapes, chunkss = [x.shape, x.numblocks], [x.chunks, ones]
+    if not big_first:
+        shapes, chunkss = shapes[::-1], chunkss[::-1]
+    return general_blockwise(f, back_key_function, x, shapes=shapes, dtypes=[np.float64, np.float64], chunkss=chunkss,
+                             target_stores=[None, None])
 
 
 def _diamond(xp, a, b):
@@ -194,13 +218,15 @@ def run(chk):
                 "from Zarr), optimized and unoptimized plans, every task measured under tracemalloc after one warm-up execution; "
                 "reserved_mem = 400 kB; non-trivial = the operation reads or writes at least one full chunk; distinct = (program, "
                 "optimize, operation)")
-    c = dict(MaxArgs=2, MaxK=2, MaxSize=2, MaxExtra=4, ReadCopies=1, WriteCopies=1, Reserved=1)
+    c = dict(MaxArgs=2, MaxK=2, MaxSize=2, MaxExtra=4, ReadCopies=1, WriteCopies=1, Reserved=1, OutRule='"max"')
     r = run_tlc("TaskMem", cfg=dict(spec="Spec", constants=c, invariants=["Dominates"], deadlock=False), timeout=1800)
     chk.add_tlc("TaskMem/Dominates", r)
     if r.violated:
         chk.violation("accounting model TaskMem: the projection formula does not dominate the modelled live set", replay=c)
     r = run_tlc("TaskMem", cfg=dict(spec="Spec", constants=c, invariants=["DominatesUnconditionally"], deadlock=False), timeout=1800)
     chk.add_tlc("TaskMem/without-side-condition", r, expect_violation=True)
+    r = run_tlc("TaskMem", cfg=dict(spec="Spec", constants=dict(c, OutRule='"last"', MaxArgs=1, MaxSize=3), invariants=["Dominates"], deadlock=False), timeout=1800)
+    chk.add_tlc("TaskMem/switch-OutRule=last", r, expect_violation="Dominates")
     if chk.tier == "thorough":
         c2 = dict(c, MaxK=3, MaxSize=2, MaxExtra=6)
         r = run_tlc("TaskMem", cfg=dict(spec="Spec", constants=c2, invariants=["Dominates"], deadlock=False), timeout=3000)
@@ -210,8 +236,9 @@ def run(chk):
     rng = random.Random(chk.seed + 301)
     probes = ["unstack", "index-step", "roll", "take", "fused-diamond", "widen-sum-skinny", "widen-mean-skinny"]
     if chk.tier == "quick":
-        regular = [n for n in names if n not in probes]
-        names = rng.sample(regular, 16) + probes
+        always = ["multiout-big-small", "multiout-small-big"]
+        regular = [n for n in names if n not in probes and n not in always]
+        names = rng.sample(regular, 16) + always + probes
     docs, metas = [], []
     MODES = [("none", "random"), ("default", "compressible")]
     with traced.Session() as s0:
